@@ -208,6 +208,7 @@ class Build:
     def __init__(self, driver, mode='flat', defines=(), flags=(), tag=None, prefix=''):
         self.driver, self.mode, self.defines, self.flags = driver, mode, list(defines), list(flags)
         self.tag = tag or (driver.name + '_' + mode)
+        self.only = None   # optional set of shim names compiled in this build (others do not exist in it)
         self.prefix = prefix
         self.mod = None
         self.ll = None
@@ -286,7 +287,7 @@ def load_findings(path=None):
 def compile_build(b, workdir):
     src = os.path.join(workdir, b.tag + '.cpp')
     ll = os.path.join(workdir, b.tag + '.ll')
-    open(src, 'w').write(b.driver.source(b.defines))
+    open(src, 'w').write(b.driver.source(b.defines, only=getattr(b, 'only', None)))
     # the vectoriser switches must come AFTER -O<n> (clang re-enables them otherwise)
     cmd = CLANG_BASE + MODE_FLAGS[b.mode] + ['-fno-vectorize', '-fno-slp-vectorize'] + b.flags + ['-I' + REPO, src, '-o', ll]
     rc, so, se, dt = sh(cmd, timeout=600, mem_gb=16)
